@@ -122,6 +122,14 @@ fn main() {
         }
     }
     let ctx = Ctx::new(entry.id, &tier);
-    let code = (entry.run)(&ctx);
+    // a panic of the harness itself (not of the subject, which is caught per run) is a machinery
+    // failure, never a verdict
+    let code = match std::panic::catch_unwind(std::panic::AssertUnwindSafe(|| (entry.run)(&ctx))) {
+        Ok(code) => code,
+        Err(e) => {
+            println!("MACHINERY-ERROR property={} the harness panicked: {}", entry.id, drive::panic_msg(e));
+            3
+        }
+    };
     std::process::exit(code);
 }
